@@ -29,7 +29,7 @@ class Findings:
     def __init__(self):
         self.path = os.path.join(VERIF, "known_findings.json")
         self.items = []
-        if os.path.exists(self.path):
+        if os.path.exists(self.path) and not os.environ.get("VERIF_IGNORE_KNOWN_FINDINGS"):   # (builder's switch: write replay files for listed findings too)
             with open(self.path) as f:
                 self.items = json.load(f).get("findings", [])
 
